@@ -2,7 +2,7 @@
 //! by-reference parameters, unit / scalar / heap / 136-byte outputs, two with the SAME output type),
 //! driven by sequences of fake / await / await-on-another-thread / drop / new through the public
 //! async macros with a hand-written executor that counts polls.
-//! input: <id> <op,op,...>   op = F:<i>:<v> | A:<i> | T:<i> (await on a spawned thread) | D | N
+//! input: <id> <op,op,...>   op = F:<i> | G:<i> | A:<i> | T:<i> (await on a spawned thread) | X:<i> (another thread's whole lifetime on fn i) | D | N
 use crate::util;
 use injectorpp::interface::injector::*;
 use std::future::Future;
@@ -43,12 +43,12 @@ fn block_on_count<F: Future>(fut: F) -> (F::Output, usize) {
 fn do_await(i: usize) -> String {
     let b0 = BODY[i].load(SeqCst); let e0 = EVAL[i].load(SeqCst);
     let (val, polls) = match i {
-        0 => { let (v, p) = block_on_count(a0(5)); ((if v == 105 { "o".to_string() } else if v >= 80000 { format!("g{}", v - 80000) } else if v >= 70000 { format!("f{}", v - 70000) } else { "?".into() }), p) }
-        1 => { let (v, p) = block_on_count(a1("k")); ((if v == "orig:k" { "o".to_string() } else if let Some(r) = v.strip_prefix("fake:") { format!("f{r}") } else if let Some(r) = v.strip_prefix("fakeB:") { format!("g{r}") } else { "?".into() }), p) }
+        0 => { let (v, p) = block_on_count(a0(5)); ((if v == 105 { "o".to_string() } else if v >= 90000 { "x".to_string() } else if v >= 80000 { format!("g{}", v - 80000) } else if v >= 70000 { format!("f{}", v - 70000) } else { "?".into() }), p) }
+        1 => { let (v, p) = block_on_count(a1("k")); ((if v == "orig:k" { "o".to_string() } else if let Some(r) = v.strip_prefix("fake:") { format!("f{r}") } else if let Some(r) = v.strip_prefix("fakeB:") { format!("g{r}") } else if v.starts_with("fakeX:") { "x".to_string() } else { "?".into() }), p) }
         2 => { let (_, p) = block_on_count(a2()); ("u".to_string(), p) }
-        3 => { let (v, p) = block_on_count(a3(9)); ((if v == [9u64; 17] { "o".to_string() } else if v[0] >= 80000 && v.iter().all(|x| *x == v[0]) { format!("g{}", v[0] - 80000) } else if v[0] >= 70000 && v.iter().all(|x| *x == v[0]) { format!("f{}", v[0] - 70000) } else { "?".into() }), p) }
-        4 => { let (v, p) = block_on_count(a4(5)); ((if v == 405 { "o".to_string() } else if v >= 80000 { format!("g{}", v - 80000) } else if v >= 70000 { format!("f{}", v - 70000) } else { "?".into() }), p) }
-        _ => { let s = S(1); let (v, p) = block_on_count(s.m0(5)); ((if v == 506 { "o".to_string() } else if v >= 80000 { format!("g{}", v - 80000) } else if v >= 70000 { format!("f{}", v - 70000) } else { "?".into() }), p) }
+        3 => { let (v, p) = block_on_count(a3(9)); ((if v == [9u64; 17] { "o".to_string() } else if v[0] >= 90000 && v.iter().all(|x| *x == v[0]) { "x".to_string() } else if v[0] >= 80000 && v.iter().all(|x| *x == v[0]) { format!("g{}", v[0] - 80000) } else if v[0] >= 70000 && v.iter().all(|x| *x == v[0]) { format!("f{}", v[0] - 70000) } else { "?".into() }), p) }
+        4 => { let (v, p) = block_on_count(a4(5)); ((if v == 405 { "o".to_string() } else if v >= 90000 { "x".to_string() } else if v >= 80000 { format!("g{}", v - 80000) } else if v >= 70000 { format!("f{}", v - 70000) } else { "?".into() }), p) }
+        _ => { let s = S(1); let (v, p) = block_on_count(s.m0(5)); ((if v == 506 { "o".to_string() } else if v >= 90000 { "x".to_string() } else if v >= 80000 { format!("g{}", v - 80000) } else if v >= 70000 { format!("f{}", v - 70000) } else { "?".into() }), p) }
     };
     format!("{i}:{val}:{polls}:{}:{}", BODY[i].load(SeqCst) - b0, EVAL[i].load(SeqCst) - e0)
 }
@@ -76,12 +76,27 @@ fn do_fake_b(inj: &mut InjectorPP, i: usize) {
     }
 }
 
+/// the fake used by ANOTHER thread's own lifetime (X): a third call site with its own evaluation counter, so that it does not disturb the markers of F and G
+static EVALX: AtomicUsize = AtomicUsize::new(0);
+fn do_fake_x(inj: &mut InjectorPP, i: usize) {
+    match i {
+        0 => inj.when_called_async(injectorpp::async_func!(a0(0), u32)).will_return_async(injectorpp::async_return!(90000 + EVALX.fetch_add(1, SeqCst) as u32, u32)),
+        1 => inj.when_called_async(injectorpp::async_func!(a1(""), String)).will_return_async(injectorpp::async_return!(format!("fakeX:{}", EVALX.fetch_add(1, SeqCst)), String)),
+        2 => inj.when_called_async(injectorpp::async_func!(a2(), ())).will_return_async(injectorpp::async_return!({ EVALX.fetch_add(1, SeqCst); }, ())),
+        3 => inj.when_called_async(injectorpp::async_func!(a3(0), [u64; 17])).will_return_async(injectorpp::async_return!([90000 + EVALX.fetch_add(1, SeqCst) as u64; 17], [u64; 17])),
+        4 => inj.when_called_async(injectorpp::async_func!(a4(0), u32)).will_return_async(injectorpp::async_return!(90000 + EVALX.fetch_add(1, SeqCst) as u32, u32)),
+        _ => { static S0: S = S(0); inj.when_called_async(injectorpp::async_func!(S0.m0(0), u32)).will_return_async(injectorpp::async_return!(90000 + EVALX.fetch_add(1, SeqCst) as u32, u32)) }
+    }
+}
+
 fn one(line: &str) -> String {
     let mut it = line.split_whitespace();
     let id = it.next().unwrap();
     let ops: Vec<&str> = it.next().unwrap_or("").split(',').filter(|s| !s.is_empty()).collect();
     let mut out = Vec::new();
     let mut inj: Option<InjectorPP> = Some(InjectorPP::new());
+    let mut pending: Vec<std::thread::JoinHandle<String>> = Vec::new();
+    let mut xres: Vec<String> = Vec::new();
     for op in ops {
         let t: Vec<&str> = op.split(':').collect();
         match t[0] {
@@ -89,14 +104,25 @@ fn one(line: &str) -> String {
             "G" => { if let Some(j) = inj.as_mut() { do_fake_b(j, t[1].parse().unwrap()); out.push("F".to_string()); } else { out.push("F-noinj".into()); } }
             "A" => out.push(do_await(t[1].parse().unwrap())),
             "T" => { let i: usize = t[1].parse().unwrap(); out.push(std::thread::spawn(move || do_await(i)).join().unwrap()); }
-            "D" => { inj = None; out.push("D".into()); }
+            // X:<i> — ANOTHER thread runs a whole lifetime of its own on async fn i (new injector, the second fake, one await, drop).  While this
+            // thread's injector is alive the other one must wait for it (nothing of it may take effect early); otherwise it runs at once.
+            "X" => {
+                let i: usize = t[1].parse().unwrap();
+                let (tx, rx) = std::sync::mpsc::channel();
+                let h = std::thread::spawn(move || { let mut j = InjectorPP::new(); do_fake_x(&mut j, i); let _ = tx.send(()); let r = do_await(i); drop(j); r });
+                let early = rx.recv_timeout(std::time::Duration::from_millis(if inj.is_some() { 60 } else { 3000 })).is_ok();
+                if inj.is_none() { xres.push(h.join().unwrap()); } else { pending.push(h); }
+                out.push(format!("X:{}", early as u8));
+            }
+            "D" => { inj = None; for h in pending.drain(..) { xres.push(h.join().unwrap()); } out.push("D".into()); }
             "N" => { if inj.is_none() { inj = Some(InjectorPP::new()); } out.push("N".into()); }
             _ => out.push("?".into()),
         }
     }
     drop(inj);
+    for h in pending.drain(..) { xres.push(h.join().unwrap()); }
     let after: Vec<String> = (0..NFN).map(do_await).collect();
-    format!("{id} RES {}\n{id} AFTER {}\n", out.join(","), after.join(","))
+    format!("{id} RES {}\n{id} XRES {}\n{id} AFTER {}\n", out.join(","), xres.join(","), after.join(","))
 }
 
 pub fn main(_args: &[String]) {
